@@ -27,7 +27,9 @@ func rep(s string, n int) string {
 
 var ScaledShapes = []ScaledShape{
 	{"statements", 0, func(n int, nl string) string { return "<?php" + nl + rep("$a = 1;"+nl, n) }},
-	{"blank-lines-between-statements", 0, func(n int, nl string) string { return "<?php" + nl + "$a;" + rep(nl, n) + "$b;" + rep(nl, n/3) + "?>" + nl + "x" }},
+	{"blank-lines-between-statements", 0, func(n int, nl string) string {
+		return "<?php" + nl + "$a;" + rep(nl, n) + "$b;" + rep(nl, n/3) + "?>" + nl + "x"
+	}},
 	{"nested-arrays", 0, func(n int, nl string) string { return "<?php $a = " + rep("[", n) + "1" + rep("]", n) + ";" }},
 	{"nested-array-calls", 0, func(n int, nl string) string { return "<?php $a = " + rep("array(", n) + rep(")", n) + ";" }},
 	{"nested-parentheses", 0, func(n int, nl string) string { return "<?php $a = " + rep("(", n) + "$b" + rep(")", n) + ";" }},
@@ -55,8 +57,12 @@ var ScaledShapes = []ScaledShape{
 	{"long-single-quoted-string-many-lines", 0, func(n int, nl string) string { return "<?php $a = '" + rep("line"+nl, n) + "';" + nl + "$b;" }},
 	{"long-double-quoted-string-many-lines", 0, func(n int, nl string) string { return "<?php $a = \"" + rep("line"+nl, n) + "\";" + nl + "$b;" }},
 	{"string-with-many-interpolations", 0, func(n int, nl string) string { return "<?php $a = \"" + rep("$b {$c} ${d} $e[0] $f->g"+nl, n) + "\";" }},
-	{"heredoc-with-many-interpolations", 0, func(n int, nl string) string { return "<?php $a = <<<EOT" + nl + rep("text $b {$c->d} ${e}"+nl, n) + "EOT;" + nl + "$z;" }},
-	{"nowdoc-many-lines", 0, func(n int, nl string) string { return "<?php $a = <<<'EOT'" + nl + rep("raw $b"+nl, n) + "EOT;" + nl + "$z;" }},
+	{"heredoc-with-many-interpolations", 0, func(n int, nl string) string {
+		return "<?php $a = <<<EOT" + nl + rep("text $b {$c->d} ${e}"+nl, n) + "EOT;" + nl + "$z;"
+	}},
+	{"nowdoc-many-lines", 0, func(n int, nl string) string {
+		return "<?php $a = <<<'EOT'" + nl + rep("raw $b"+nl, n) + "EOT;" + nl + "$z;"
+	}},
 	{"many-heredocs", 0, func(n int, nl string) string { return "<?php" + nl + rep("$a = <<<L"+nl+"x"+nl+"L;"+nl, n) }},
 	{"nested-interpolations", 0, func(n int, nl string) string { return "<?php $a = " + rep("\"x{$b[", n) + "1" + rep("]}y\"", n) + ";" }},
 	{"backtick-with-many-interpolations", 0, func(n int, nl string) string { return "<?php $a = `" + rep("ls $b ", n) + "`;" }},
@@ -65,7 +71,9 @@ var ScaledShapes = []ScaledShape{
 	{"many-comments-before-one-token", 0, func(n int, nl string) string { return "<?php " + rep("/* c */ // d"+nl+"# e"+nl, n) + "$a;" }},
 	{"many-comments-between-tokens", 0, func(n int, nl string) string { return "<?php $a = [" + rep("1 /* c */ , // d"+nl, n) + "];" }},
 	{"long-line-comment", 0, func(n int, nl string) string { return "<?php // " + rep("x", n) + nl + "$a;" }},
-	{"inline-html-many-lines", 0, func(n int, nl string) string { return rep("<p>html</p>"+nl, n) + "<?php $a; ?>" + nl + rep("tail"+nl, n/4) }},
+	{"inline-html-many-lines", 0, func(n int, nl string) string {
+		return rep("<p>html</p>"+nl, n) + "<?php $a; ?>" + nl + rep("tail"+nl, n/4)
+	}},
 	{"html-php-alternation", 0, func(n int, nl string) string { return rep("<b><?php echo $a; ?></b>"+nl, n) }},
 	{"echo-tags", 0, func(n int, nl string) string { return rep("<?= $a ?>"+nl, n) }},
 	{"array-items", 0, func(n int, nl string) string { return "<?php $a = [" + rep("1, ", n) + "2];" }},
@@ -85,7 +93,9 @@ var ScaledShapes = []ScaledShape{
 	{"echo-expressions", 0, func(n int, nl string) string { return "<?php echo " + rep("$a, ", n) + "$b;" }},
 	{"global-variables", 0, func(n int, nl string) string { return "<?php global " + rep("$a, ", n) + "$b;" }},
 	{"static-variables", 0, func(n int, nl string) string { return "<?php static " + rep("$a = 1, ", n) + "$b;" }},
-	{"unset-isset-lists", 0, func(n int, nl string) string { return "<?php unset(" + rep("$a, ", n) + "$b); isset(" + rep("$a, ", n) + "$b);" }},
+	{"unset-isset-lists", 0, func(n int, nl string) string {
+		return "<?php unset(" + rep("$a, ", n) + "$b); isset(" + rep("$a, ", n) + "$b);"
+	}},
 	{"const-list", 0, func(n int, nl string) string { return "<?php const " + rep("A = 1, ", n) + "B = 2;" }},
 	{"use-list", 0, func(n int, nl string) string { return "<?php use " + rep("A\\B as C, ", n) + "D;" }},
 	{"group-use-list", 7, func(n int, nl string) string { return "<?php use A\\{" + rep("B, function c, ", n) + "D};" }},
@@ -94,17 +104,31 @@ var ScaledShapes = []ScaledShape{
 	}},
 	{"property-list", 0, func(n int, nl string) string { return "<?php class A { public " + rep("$p = 1, ", n) + "$q; }" }},
 	{"implements-list", 0, func(n int, nl string) string { return "<?php class A implements " + rep("I, ", n) + "J {}" }},
-	{"trait-adaptations", 0, func(n int, nl string) string { return "<?php class A { use T, U {" + nl + rep("T::m insteadof U; m as protected n;"+nl, n) + "} }" }},
-	{"switch-cases", 0, func(n int, nl string) string { return "<?php switch ($a) {" + nl + rep("case 1: $b; break;"+nl, n) + "default: }" }},
+	{"trait-adaptations", 0, func(n int, nl string) string {
+		return "<?php class A { use T, U {" + nl + rep("T::m insteadof U; m as protected n;"+nl, n) + "} }"
+	}},
+	{"switch-cases", 0, func(n int, nl string) string {
+		return "<?php switch ($a) {" + nl + rep("case 1: $b; break;"+nl, n) + "default: }"
+	}},
 	{"elseif-chain", 0, func(n int, nl string) string { return "<?php if ($a) {}" + rep(nl+"elseif ($b) {}", n) + " else {}" }},
-	{"alt-elseif-chain", 0, func(n int, nl string) string { return "<?php if ($a):" + rep(nl+"elseif ($b): $c;", n) + nl + "else: endif;" }},
+	{"alt-elseif-chain", 0, func(n int, nl string) string {
+		return "<?php if ($a):" + rep(nl+"elseif ($b): $c;", n) + nl + "else: endif;"
+	}},
 	{"catch-chain", 0, func(n int, nl string) string { return "<?php try {}" + rep(" catch (E $e) {}"+nl, n) + " finally {}" }},
-	{"for-expression-lists", 0, func(n int, nl string) string { return "<?php for (" + rep("$i = 0, ", n) + "$j = 0; ; " + rep("$i++, ", n) + "$j++) {}" }},
+	{"for-expression-lists", 0, func(n int, nl string) string {
+		return "<?php for (" + rep("$i = 0, ", n) + "$j = 0; ; " + rep("$i++, ", n) + "$j++) {}"
+	}},
 	{"declare-directives", 0, func(n int, nl string) string { return "<?php declare(" + rep("ticks = 1, ", n) + "ticks = 2);" }},
 	{"labels-and-gotos", 0, func(n int, nl string) string { return "<?php " + rep("l: goto l;"+nl, n) }},
-	{"namespaces", 0, func(n int, nl string) string { return "<?php" + nl + rep("namespace A\\B;"+nl+"use C\\D;"+nl+"f();"+nl, n) }},
-	{"braced-namespaces", 0, func(n int, nl string) string { return "<?php" + nl + rep("namespace A { f(); }"+nl, n) + "namespace { g(); }" }},
-	{"functions", 0, func(n int, nl string) string { return "<?php" + nl + rep("function f(A $a = null, &$b, ...$c) { return $a; }"+nl, n) }},
+	{"namespaces", 0, func(n int, nl string) string {
+		return "<?php" + nl + rep("namespace A\\B;"+nl+"use C\\D;"+nl+"f();"+nl, n)
+	}},
+	{"braced-namespaces", 0, func(n int, nl string) string {
+		return "<?php" + nl + rep("namespace A { f(); }"+nl, n) + "namespace { g(); }"
+	}},
+	{"functions", 0, func(n int, nl string) string {
+		return "<?php" + nl + rep("function f(A $a = null, &$b, ...$c) { return $a; }"+nl, n)
+	}},
 	{"halt-compiler-tail", 0, func(n int, nl string) string { return "<?php $a; __halt_compiler();" + rep("data\x00"+nl, n) }},
 	{"shebang-and-statements", 0, func(n int, nl string) string { return "#!/usr/bin/php" + nl + "<?php" + nl + rep("$a;"+nl, n) }},
 	{"open-close-tags", 0, func(n int, nl string) string { return rep("<?php ?>"+nl, n) }},
